@@ -3,6 +3,7 @@
 One path at a time; loops are cut at their headers by invariants; calls are
 replaced by the callee's contract (or inlined when the callee has none / is
 marked inline); every potential panic site yields a safety obligation."""
+import re
 import z3
 
 from .model import forall, add0, Model, Val, Ptr, Closure, Unsupported
@@ -1425,6 +1426,16 @@ class Executor:
             a0 = ins['args'][0]
             if a0['k'] == 'global':
                 v.py = ('globalval', a0['n'])
+                lit = self.string_slice_globals().get(a0['n'])
+                if lit is not None and len(v.leaves) == 3 and self.m.kind(ins['t']) == 'slice':
+                    # a package-level []string assigned once, in the package initialiser, from a literal of constants
+                    arr, off, ln = v.leaves
+                    E = self.m.elem(ins['t'])
+                    st.assume(ln == len(lit))
+                    for k_, text in enumerate(lit):
+                        ev = self.load(st, Ptr('elem', E, '', arr, add0(off, z3.IntVal(k_))), E)
+                        st.assume(ev.leaves[0] == self.m.strconst(text))
+                    self.trusted.add('package-level slice %s keeps the content of its initialiser (assigned only there; its elements are assumed not to be overwritten)' % a0['n'].rsplit('.', 1)[-1])
                 if a0['n'] in self.regex_globals() and len(v.leaves) == 1:
                     # assigned once, from regexp.MustCompile, in the package initialiser
                     st.assume(v.leaves[0] != 0)
@@ -2459,6 +2470,46 @@ class Executor:
             for text, c in consts:
                 out.append(f(ref, c) == z3.BoolVal(rx.search(text) is not None))
         return out
+
+    _sslices = None
+
+    def string_slice_globals(self):
+        """{global: [texts]} for the package-level []string variables whose only assignment in the module is, in the
+        package initialiser, a slice literal of string constants (read from the SSA of the init functions)"""
+        if self._sslices is not None:
+            return self._sslices
+        found = {}
+        stores = {}
+        for f in self.prog.funcs.values():
+            is_init = f.short == 'init' or f.short.startswith('init')
+            for blk in f.blocks:
+                allocs, addrs, slices = {}, {}, {}
+                for ins in blk['instrs']:
+                    op = ins['op']
+                    if op == 'Store' and ins['args'][0]['k'] == 'global':
+                        g = ins['args'][0]['n']
+                        stores[g] = stores.get(g, 0) + 1
+                    if not is_init:
+                        continue
+                    if op == 'Alloc' and ins.get('comment') == 'slicelit' and re.match(r'\*\[\d+\]string$', ins.get('t', '')):
+                        allocs[ins['reg']] = {'n': int(re.match(r'\*\[(\d+)\]', ins['t']).group(1)), 'vals': {}}
+                    elif op == 'IndexAddr' and ins['args'][0].get('n') in allocs and ins['args'][1]['k'] == 'const':
+                        addrs[ins['reg']] = (ins['args'][0]['n'], int(ins['args'][1]['v']))
+                    elif op == 'Store' and ins['args'][0]['k'] == 'reg' and ins['args'][0]['n'] in addrs:
+                        a, i = addrs[ins['args'][0]['n']]
+                        if ins['args'][1]['k'] == 'const' and ins['args'][1].get('t') == 'string':
+                            allocs[a]['vals'][i] = ins['args'][1]['v']
+                        else:
+                            allocs[a]['vals'][i] = None
+                    elif op == 'Slice' and ins['args'][0].get('n') in allocs and ins['args'][1]['k'] == 'none' and ins['args'][2]['k'] == 'none':
+                        slices[ins['reg']] = ins['args'][0]['n']
+                    elif op == 'Store' and ins['args'][0]['k'] == 'global' and ins['args'][1]['k'] == 'reg' and ins['args'][1]['n'] in slices:
+                        a = allocs[slices[ins['args'][1]['n']]]
+                        vals = [a['vals'].get(i) for i in range(a['n'])]
+                        if all(isinstance(v, str) for v in vals):
+                            found[ins['args'][0]['n']] = vals
+        self._sslices = {g: v for g, v in found.items() if stores.get(g, 0) == 1}
+        return self._sslices
 
     def regex_globals(self):
         if self._regex is None:
